@@ -110,6 +110,14 @@ class FnCompiler:
 
     def expr(self, e, env):
         """-> (code, type, pure)"""
+        subst = self.spec.get("subst")
+        if subst and not isinstance(e, (ast.Constant, ast.Name)):
+            txt = ast.unparse(e)
+            if txt in subst:
+                # a sub-expression about objects outside the first-order fragment (an operator's class, its shape, its flags)
+                # is an INPUT of the translated fragment
+                nm = subst[txt]
+                return vname(nm), env[nm], True
         if isinstance(e, ast.Constant):
             v = e.value
             if v is None:
@@ -555,6 +563,10 @@ class FnCompiler:
                 code, ty, pure = self.expr(value, env)
                 if declared is not None and declared != ty and key not in self.spec.get("locals", {}):
                     raise Fail("annotation of %s: %r vs %r" % (key, declared, ty))
+            if env.get(key) == O and ty == S:
+                # a variable that holds "a method name, a callable or None": a string stored in it is the string object
+                code, pure = self.combine([(code, pure)], lambda a: "(OStr %s)" % a)
+                ty = O
             env2 = dict(env)
             self.set_var(key, ty, env2)
             code = "(%s : %s)" % (code, coq_type(ty)) if pure else code
@@ -820,7 +832,7 @@ class FnCompiler:
     def compile(self):
         spec, fdef = self.spec, self.fdef
         a = fdef.args
-        if a.kwonlyargs or a.kwarg or a.posonlyargs:
+        if (a.kwonlyargs or a.kwarg or a.posonlyargs) and not spec.get("fragment"):
             raise Fail("%s: unsupported parameter kinds" % spec["qual"])
         pnames = [x.arg for x in a.args]
         is_method = bool(pnames) and pnames[0] == "self"
@@ -910,7 +922,7 @@ class Unit:
             if spec["qual"] not in funs:
                 raise Fail("%s: %s not found" % (self.relpath, spec["qual"]))
             fdef = funs[spec["qual"]]
-            if fdef.decorator_list:
+            if fdef.decorator_list and not spec.get("fragment"):
                 raise Fail("%s: decorated" % spec["qual"])
             text, rtype, ptypes, _ = FnCompiler(self, spec, fdef).compile()
             out.append(text)
@@ -956,6 +968,20 @@ UNITS = {
              calls={"self._uniq.map_unique_objs": ("uniquifier_map_unique_objs", "self._uniq", [L(O)], L(O))}),
     ], "From XV Require Import Gen.PyUnique.\n"),
 }
+_OPSUB = {"isinstance(A, MatrixLinearOperator)": "a_dense", "M is None or isinstance(M, MatrixLinearOperator)": "m_absent_or_dense",
+          "A.shape[-1]": "n", "A.is_hermitian": "a_hermitian", "M is None or M.is_hermitian": "m_absent_or_hermitian"}
+_OPIN = [("a_dense", B), ("m_absent_or_dense", B), ("n", Z), ("a_hermitian", B), ("m_absent_or_hermitian", B), ("method", O)]
+UNITS["PyDispatch"] = ("xitorch/linalg/solve.py", [
+    # solve(): the choice of the default method and the lower-casing of names, in front of the dispatch
+    dict(qual="solve", coq="solve_method_prelude", params=[],
+         fragment={"from": "if method is None:", "until": "if method == 'exactsolve':", "inputs": _OPIN, "outputs": ["method"]},
+         subst=_OPSUB),
+])
+UNITS["PyDispatchEig"] = ("xitorch/linalg/symeig.py", [
+    dict(qual="symeig", coq="symeig_method_prelude", params=[],
+         fragment={"from": "if method is None:", "until": "if method == 'exacteig':", "inputs": _OPIN, "outputs": ["method"]},
+         subst=_OPSUB, skip=["if neig is None:", "if is_debug_enabled():"]),
+])
 UNITS["PyTensorPacker"] = ("xitorch/_utils/misc.py", [
     # tensors are modelled by their shapes: torch.numel(p) is the product of the shape, p.shape the shape itself
     dict(qual="TensorPacker.__init__", coq="tensorpacker_init", params=[("tensors", L(L(Z)))], shape_modelled=["p"],
@@ -1002,6 +1028,8 @@ RELEVANT = {
     "PyPureFn": ["C09", "C10"],
     "PyEditable": ["C09", "C10"],
     "PyTensorPacker": ["C07", "C08"],
+    "PyDispatch": ["C18"],
+    "PyDispatchEig": ["C18"],
 }
 LAST_INFO = {}
 
